@@ -472,7 +472,9 @@ pub fn c09_strategy_p(max_len: usize, transports: BoxedStrategy<Transport>, with
             for ((framing, read, finish, headers, mask), with_body) in items {
                 if with_body || id == 0 {
                     // HTTP/1.0 clients with keep-alive reuse the connection too
-                    let v10 = !matches!(framing, Framing::Chunked { .. }) && (mask >> 24) % 4 == 0;
+                    // (a chunked body from a client that calls itself HTTP/1.0 is a chunked body: the
+                    // coding named in the message decides where it ends, now and then)
+                    let v10 = (!matches!(framing, Framing::Chunked { .. }) || (mask >> 20) % 3 == 0) && (mask >> 24) % 4 == 0;
                     let (version, conn) = if v10 { ("HTTP/1.0", Some(["keep-alive", "Keep-Alive"][(mask as usize >> 26) % 2].to_string())) } else { ("HTTP/1.1", None) };
                     // now and then the body is announced with an expectation; the client sends it without
                     // waiting, whether or not the application ever asks for it
@@ -514,7 +516,7 @@ use crate::wire::{Malform, Place};
 pub fn c10_malform(n_headers: usize) -> BoxedStrategy<Malform> {
     let nh = n_headers.max(1);
     prop_oneof![
-        2 => (0u8..3).prop_map(Malform::ReqLineFields),
+        2 => (0u8..4).prop_map(Malform::ReqLineFields),
         3 => proptest::sample::select(vec!["HTTP/1.2", "HTTP/1.10", "HTTP/2", "HTTP/4.0", "http/1.1", "HTTP/1.1x", "HTTP1.1", "HTTP/", "xyz", "HTTP/01.1", "HTTP/1.1.1", "HTTP/11"]).prop_map(|s| Malform::VersionToken(s.to_string())),
         3 => proptest::sample::select(vec!["HTTP/2.0", "HTTP/3.0"]).prop_map(|s| Malform::VersionToken(s.to_string())),
         2 => (0..=nh, proptest::sample::select(vec!["NoColonHere", "X-Broken value", "garbage", "Host", " ", "\t", "  \t ", " x", "a b c", "="])).prop_map(|(at, t)| Malform::HeaderNoColon { at, text: t.to_string() }),
